@@ -399,8 +399,14 @@ func (a *TCPAllocation) Addr() net.Addr {
 // HandleConnectionAttempt is called by the TURN client
 // when it receives a ConnectionAttempt indication.
 func (a *TCPAllocation) HandleConnectionAttempt(from *net.TCPAddr, cid proto.ConnectionID) {
-	a.connAttemptCh <- &connectionAttempt{
+	// Never block the client's inbound path: when nobody accepts and the queue is
+	// full the attempt is dropped (the server closes it after its bind timeout).
+	select {
+	case a.connAttemptCh <- &connectionAttempt{
 		from: from,
 		cid:  cid,
+	}:
+	default:
+		a.log.Warnf("Connection attempt queue full, dropping attempt from %s", from)
 	}
 }
